@@ -141,3 +141,72 @@ func mentionsField(v ssa.Value, field string, depth int) bool {
 	}
 	return false
 }
+
+func init() {
+	register(&Rule{ID: "C09.R9", Min: 1,
+		Text: "the intermediate value quantize rounds (exponent −diff; adjusted exponent = number of digits kept − 1) is not subject to the caller's MaxExponent either: the private context handed to Rounder.Round has MaxExponent = the package limit, so that a result that fits (Quantize(12.345678, −3) at Precision 9, MaxExponent 3 = 12.346, adjusted exponent 1) is not turned into an overflowed infinity, which Quantize reports as InvalidOperation",
+		Run:  ruleQuantizeIntermediateMaxExponent})
+}
+
+func ruleQuantizeIntermediateMaxExponent(w *World, r *RuleResult) {
+	f := w.fn("(*Context).quantize")
+	if f == nil {
+		r.anchorMissing("(*Context).quantize")
+		return
+	}
+	maxE, ok := int64(0), false
+	if c, isC := w.SSA.Members["MaxExponent"].(*ssa.NamedConst); isC {
+		maxE, ok = ci(c.Value), true
+	}
+	if !ok {
+		r.anchorMissing("MaxExponent constant")
+		return
+	}
+	n := 0
+	for _, g := range w.closureFuncs(f) {
+		for _, c := range w.callsTo(g, rounderRound) {
+			n++
+			key := fmt.Sprintf("%s | intermediate rounding context: MaxExponent", w.shortName(g))
+			if k := countKey(r, key); k > 0 {
+				key = fmt.Sprintf("%s #%d", key, k+1)
+			}
+			var ctx ssa.Value
+			for _, a := range c.Common().Args {
+				if isContextPtr(a.Type()) {
+					ctx = a
+				}
+			}
+			if ctx == nil {
+				r.undecided(key, w.instrPos(c), "no *Context argument found")
+				continue
+			}
+			base := basePtr(ctx)
+			fromCtor := false
+			if ci := w.ctxCtor(base); ci != nil {
+				if v, ok := ci.Consts["MaxExponent"]; ok && v == fmt.Sprint(maxE) {
+					fromCtor = true
+				}
+			}
+			stored := seenBefore(c, func(in ssa.Instruction) bool {
+				st, ok := in.(*ssa.Store)
+				if !ok {
+					return false
+				}
+				fa, ok := st.Addr.(*ssa.FieldAddr)
+				if !ok || basePtr(fa.X) != base || w.exprOf(g, st.Addr).Name != "MaxExponent" {
+					return false
+				}
+				k, isK := st.Val.(*ssa.Const)
+				return isK && ci(k) == maxE
+			})
+			if stored || fromCtor {
+				r.ok(key, w.instrPos(c), "private context copy with MaxExponent = package limit on every path", true)
+			} else {
+				r.bad(key, w.instrPos(c), "the private context keeps the caller's MaxExponent: the intermediate value's adjusted exponent is the number of digits kept less one, which can exceed it although the result's does not — the rounding overflows to infinity and Quantize answers InvalidOperation for a result that fits (Quantize(12.345678, -3) at Precision 9, MaxExponent 3)")
+			}
+		}
+	}
+	if n == 0 {
+		r.ok("(*Context).quantize | intermediate rounding context: MaxExponent", w.pos(f.Pos()), "quantize does not call Rounder.Round: this shape is not decided", false)
+	}
+}
